@@ -374,6 +374,9 @@ func runC12(c *Ctx) {
 			mal("missing-semicolon", rep1(";chunk-signature=", " chunk-signature="), len(payload), "first header", "reject")
 			mal("size-too-large", rep1("18;", "19;"), len(payload), "first header", "reject")
 			mal("size-too-small", rep1("18;", "17;"), len(payload), "first header", "reject")
+			// the same understated chunk with a declared length that matches the understatement
+			mal("size-too-small-declared-to-match", rep1("18;", "17;"), len(payload)-1, "first header", "reject")
+			mal("size-too-large-declared-to-match", rep1("18;", "19;"), len(payload)+1, "first header", "reject")
 			mal("short-signature", rep1("0123456789abcdef0123", "0123"), len(payload), "first header", "reject")
 			mal("long-signature", rep1("0123456789abcdef0123", "0123456789abcdef0123ffff"), len(payload), "first header", "reject")
 			mal("missing-crlf-after-header", rep1("cdef\r\n", "cdef"), len(payload), "first header", "reject")
